@@ -1,5 +1,6 @@
 import Storrent.Model.Namespace
 import Storrent.Lemmas.Namespace
+import Storrent.Lemmas.NamespaceDirs
 /-
 C20 — Front-ends expose exactly the torrent's files.
 
@@ -278,6 +279,103 @@ theorem C20_playlist_entries (t : Torrent) (fs : List File) (ht : t.files = some
         subst h
         exact (((sortFiles_perm fs).filter _).map _)
 
+theorem nodup_filter_paths (fs : List File) (hd : fs.Pairwise (fun a b => a.path ≠ b.path))
+    (p : File → Bool) : ((fs.filter p).map (·.path)).Nodup := by
+  unfold List.Nodup
+  rw [List.pairwise_map]
+  exact List.Pairwise.filter p hd
+
+/-- under `WFfiles` no file is listed twice on a directory page: the paths of the file rows
+    are pairwise distinct (so "each file exactly once": a permutation without repetition) -/
+theorem C20_http_listing_nodup (t : Torrent) (fs : List File) (ht : t.files = some fs)
+    (hc : t.complete = true) (wf : WFfiles fs) (dir : Path) (rows : List Row)
+    (h : listing t dir = .ok rows) : ((fileRows rows).map (·.1)).Nodup := by
+  have hperm := ((C20_http_listing t fs ht hc dir rows h).1).map (·.1)
+  rw [List.map_map] at hperm
+  have : ((fs.filter fun f => within f.path dir).map ((·.1) ∘ fun f => (f.path, f.length))).Nodup :=
+    nodup_filter_paths fs wf.distinct _
+  exact hperm.nodup_iff.mpr this
+
+/-- …and no file has two playlist entries -/
+theorem C20_playlist_nodup (t : Torrent) (fs : List File) (ht : t.files = some fs)
+    (hc : t.complete = true) (wf : WFfiles fs) (dir : Path) (ps : List Path)
+    (h : playlist t dir = .entries ps) : ps.Nodup :=
+  ((C20_playlist_entries t fs ht hc dir).2 ps h).nodup_iff.mpr (nodup_filter_paths fs wf.distinct _)
+
+/-- a directory link `/hash/String(d)/` is dispatched to the directory view of exactly `d` -/
+theorem C20_http_dir_link (t : Torrent) (d : Path) (hne : d ≠ []) (hcomp : ∀ c ∈ d, compOK c = true) :
+    torHandler t (pstring d ++ [47]) false =
+      (match listing t d with | .ok rows => .dirPage rows | .panic => .panic) ∧
+    torHandler t (pstring d ++ [47]) true =
+      (match playlist t d with
+        | .notFound => .notFound | .incomplete => .incomplete | .panic => .panic
+        | .entries ps => .plist ps) := by
+  have hp := parse_dir_link d hne hcomp
+  have hlast : (47 :: (pstring d ++ [47])).getLast? = some 47 := by
+    rw [show (47 : UInt8) :: (pstring d ++ [47]) = (47 :: pstring d) ++ [47] from rfl]
+    exact List.getLast?_concat
+  unfold torHandler
+  simp only [hp, hlast, Bool.false_eq_true, if_false, if_true]
+  exact ⟨rfl, by cases playlist t d <;> rfl⟩
+
+theorem listing_rows_eq (t : Torrent) (fs : List File) (ht : t.files = some fs)
+    (hc : t.complete = true) (dir : Path) (rows : List Row) (h : listing t dir = .ok rows) :
+    rows = tableLoop (sortFiles (fs.filter fun f => within f.path dir)) [] := by
+  unfold listing at h
+  simp only [hc, Bool.not_true, Bool.false_eq_true, if_false, ht] at h
+  split at h
+  · cases h
+  · injection h with h; exact h.symm
+
+/-- the directory rows of a page (any file table): a directory is shown iff it is a
+    non-empty ancestor directory of a listed file, and at every file row all its ancestor
+    directories have been shown before (`dirsBeforeFiles`) -/
+theorem C20_http_dir_rows (t : Torrent) (fs : List File) (ht : t.files = some fs)
+    (hc : t.complete = true) (dir : Path) (rows : List Row) (h : listing t dir = .ok rows) :
+    (∀ d, d ∈ dirRowsOf rows ↔
+      d ≠ [] ∧ ∃ f ∈ fs, within f.path dir = true ∧ d <+: f.path.dropLast) ∧
+    dirsBeforeFiles rows [] = true := by
+  rw [listing_rows_eq t fs ht hc dir rows h]
+  have hmem : ∀ f, f ∈ sortFiles (fs.filter fun f => within f.path dir) ↔
+      f ∈ fs ∧ within f.path dir = true := by
+    intro f
+    rw [(sortFiles_perm _).mem_iff, List.mem_filter]
+  refine ⟨fun d => ⟨?_, ?_⟩, dirsBeforeFiles_tableLoop _ _ _ (fun d hne hd => ?_)⟩
+  · intro hd
+    obtain ⟨hne, f, hf, hdf⟩ := dirRowsOf_tableLoop_sound _ _ d hd
+    exact ⟨hne, f, ((hmem f).mp hf).1, ((hmem f).mp hf).2, hdf⟩
+  · rintro ⟨hne, f, hf, hw, hdf⟩
+    rcases dirRowsOf_tableLoop_complete _ [] d f ((hmem f).mpr ⟨hf, hw⟩) hdf with h | h
+    · exact h
+    · exact absurd (List.prefix_nil.mp h) hne
+  · exact absurd (List.prefix_nil.mp hd) hne
+
+/-- under `WFfiles` every directory is shown exactly once, and its link parses back to it
+    (`C20_http_dir_link`): its components are good components -/
+theorem C20_http_dir_rows_once (t : Torrent) (fs : List File) (ht : t.files = some fs)
+    (hc : t.complete = true) (wf : WFfiles fs) (dir : Path) (rows : List Row)
+    (h : listing t dir = .ok rows) :
+    (dirRowsOf rows).Nodup ∧
+    (∀ d ∈ dirRowsOf rows, d ≠ [] ∧ (∀ c ∈ d, compOK c = true) ∧
+      parse (47 :: (pstring d ++ [47])) = d) := by
+  have hrows := (C20_http_dir_rows t fs ht hc dir rows h).1
+  have hmem : ∀ f, f ∈ sortFiles (fs.filter fun f => within f.path dir) → f ∈ fs := by
+    intro f hf
+    exact (List.mem_filter.mp ((sortFiles_perm _).mem_iff.mp hf)).1
+  constructor
+  · rw [listing_rows_eq t fs ht hc dir rows h]
+    exact (dirRowsOf_tableLoop_nodup _ [] (sortFiles_sorted _)
+      (fun a ha b hb => wf.noPrefix a (hmem a ha) b (hmem b hb))
+      (fun a ha => wf.nonempty a (hmem a ha))
+      (fun d hne hd => absurd (List.prefix_nil.mp hd) hne)).1
+  · intro d hd
+    obtain ⟨hne, f, hf, _, hdf⟩ := (hrows d).mp hd
+    have hcomp : ∀ c ∈ d, compOK c = true := by
+      intro c hc'
+      have : c ∈ f.path := ((hdf.trans (List.dropLast_prefix _)).subset) hc'
+      exact wf.comps f hf c this
+    exact ⟨hne, hcomp, parse_dir_link d hne hcomp⟩
+
 /-! ## FUSE -/
 
 /-- `directory.Lookup name` succeeds iff some file (padding ones included) lies below the
@@ -476,6 +574,111 @@ theorem C20_fuse_tree (t : Torrent) (hc : t.complete = true) (dirname : Str) (na
         | dir => exact absurd (hty.mp rfl) hl
         | file => rfl
       rw [hd, ← hn]; exact this.2 hl
+
+theorem readDirLoop_nodup (pth : Path) : ∀ (fs : List File) (dirs : List Str), WFfiles fs →
+    ((readDirLoop pth fs dirs).map (·.1)).Nodup := by
+  intro fs
+  induction fs with
+  | nil => intro _ _; simp [readDirLoop]
+  | cons f fs ih =>
+    intro dirs wf
+    have wft := WFfiles_tail wf
+    have hdist := (List.pairwise_cons.mp wf.distinct).1
+    unfold readDirLoop
+    by_cases hp : f.padding = true
+    · simp only [hp, if_true]; exact ih _ wft
+    · simp only [hp, Bool.false_eq_true, if_false]
+      by_cases hw : within f.path pth = true
+      · simp only [hw, Bool.not_true, Bool.false_eq_true, if_false]
+        -- any later entry with the same name comes from a file g whose path continues pth ++ [name]
+        have clash : ∀ (dirs' : List Str) (ty : DType),
+            (f.path.getD pth.length [], ty) ∈ readDirLoop pth fs dirs' →
+            ∃ g ∈ fs, within g.path pth = true ∧ g.path.getD pth.length [] = f.path.getD pth.length [] ∧
+              (ty = .dir ↔ g.path.length > pth.length + 1) := by
+          intro dirs' ty hm
+          obtain ⟨g, hg, _, hgw, hgn, hgt⟩ := readDirLoop_sound pth fs dirs' _ hm
+          exact ⟨g, hg, hgw, hgn, hgt⟩
+        by_cases hl : f.path.length > pth.length + 1
+        · simp only [hl, if_true]
+          by_cases hd : dirs.contains (f.path.getD pth.length []) = true
+          · simp only [hd, if_true]; exact ih _ wft
+          · simp only [hd, Bool.false_eq_true, if_false, List.map_cons]
+            refine List.nodup_cons.mpr ⟨?_, ih _ wft⟩
+            intro hm
+            obtain ⟨⟨n, ty⟩, hmem, hn⟩ := List.mem_map.mp hm
+            simp only at hn
+            subst hn
+            cases ty with
+            | dir => exact readDirLoop_dir_notin pth fs _ _ hmem List.mem_cons_self
+            | file =>
+              obtain ⟨g, hg, hgw, hgn, hgt⟩ := clash _ _ hmem
+              have hgl : ¬ g.path.length > pth.length + 1 := fun hh => by
+                have := hgt.mpr hh; cases this
+              have hgp := within_exact g.path pth hgw hgl
+              have hfp := within_prefix f.path pth hw
+              rw [hgn] at hgp
+              rw [← hgp] at hfp
+              have := wf.noPrefix g (List.mem_cons_of_mem _ hg) f List.mem_cons_self hfp
+              exact hdist g hg this.symm
+        · simp only [hl, if_false, List.map_cons]
+          refine List.nodup_cons.mpr ⟨?_, ih _ wft⟩
+          intro hm
+          obtain ⟨⟨n, ty⟩, hmem, hn⟩ := List.mem_map.mp hm
+          simp only at hn
+          subst hn
+          obtain ⟨g, hg, hgw, hgn, _⟩ := clash _ _ hmem
+          have hfp := within_exact f.path pth hw hl
+          have hgp := within_prefix g.path pth hgw
+          rw [hgn, ← hfp] at hgp
+          have := wf.noPrefix f List.mem_cons_self g (List.mem_cons_of_mem _ hg) hgp
+          exact hdist g hg this
+      · have hw' : within f.path pth = false := by simpa using hw
+        simp only [hw', Bool.not_false, if_true]; exact ih _ wft
+
+/-- under `WFfiles` the names listed by `directory.ReadDirAll` are pairwise distinct: every
+    first component below the directory appears exactly once (with `C20_fuse_tree`) -/
+theorem C20_fuse_tree_nodup (t : Torrent) (fs : List File) (ht : t.files = some fs)
+    (wf : WFfiles fs) (dirname : Str) (es : List (Str × DType))
+    (h : dirReadDir t dirname = some es) : (es.map (·.1)).Nodup := by
+  unfold dirReadDir at h
+  split at h
+  · cases h
+  · injection h with h
+    subst h
+    have : filesOf t = fs := by simp [filesOf, ht]
+    rw [this]
+    exact readDirLoop_nodup _ fs [] wf
+
+/-- `root.ReadDirAll`: one entry per live torrent that is complete and has a name, named
+    after it, a directory exactly for multi-file torrents -/
+theorem C20_root_readdir (ts : List Torrent) :
+    (rootReadDir ts).length = (ts.filter fun t => t.complete && !t.name.isEmpty).length ∧
+    (∀ n ty, (n, ty) ∈ rootReadDir ts ↔
+      ∃ t ∈ ts, t.complete = true ∧ t.name ≠ [] ∧ n = t.name ∧ (ty = .dir ↔ t.files.isSome = true)) := by
+  unfold rootReadDir
+  refine ⟨by simp, ?_⟩
+  intro n ty
+  simp only [List.mem_map, List.mem_filter, Bool.and_eq_true, Bool.not_eq_true',
+    Prod.mk.injEq]
+  constructor
+  · rintro ⟨t, ⟨ht, hc, hn⟩, rfl, rfl⟩
+    refine ⟨t, ht, hc, ?_, rfl, ?_⟩
+    · intro e; rw [e] at hn; simp at hn
+    · cases t.files <;> simp
+  · rintro ⟨t, ht, hc, hn, rfl, hty⟩
+    refine ⟨t, ⟨ht, hc, ?_⟩, rfl, ?_⟩
+    · cases hnm : t.name with
+      | nil => exact absurd hnm hn
+      | cons _ _ => rfl
+    · cases hf : t.files with
+      | none =>
+        rw [hf] at hty
+        cases ty with
+        | dir => have := hty.mp rfl; simp at this
+        | file => rfl
+      | some _ =>
+        rw [hf] at hty
+        exact (hty.mpr (by simp)).symm
 
 /-- `file.Attr` / `file.Open` on the node of a well-formed file give that file's size,
     offset and length; a name that is not a file's path is ENOENT -/
